@@ -126,6 +126,9 @@ def windows(thorough):
         (sec(22), sec(3600)),
         (sec(70), sec(71)),
         (sec(500), sec(600)),
+        (sec(92, 700), sec(95)),            # starts 200 us after the sub-ms event ended, same millisecond
+        (sec(-100), sec(-1, 999500)),       # ends half a millisecond before the first event starts (inside the read's rounding slack)
+        (sec(96, 400), sec(97, 100)),
     ]
     if thorough:
         for a in range(-5, 80, 17):
@@ -142,13 +145,19 @@ def seed(ds):
     titles = [("Editor", "(2) foo.py - code"), ("Browser", "● news"), ("Editor", "foo.py - code"), ("Game", "Cemu - FPS: 59.2")]
     ds["b1"].insert([Event(timestamp=T0 + timedelta(seconds=10 * i), duration=timedelta(seconds=5 + i % 3), data={"app": a, "title": t, "url": f"http://www.ex{i % 2}.com/p?q={i}", "nested": {"l": [i]}}) for i, (a, t) in enumerate(titles * 2)])
     ds["b2"].insert([Event(timestamp=T0 + timedelta(seconds=25 * i), duration=timedelta(seconds=30), data={"status": "not-afk" if i % 2 == 0 else "afk"}) for i in range(4)])
+    # an event that ends inside a millisecond (sub-ms duration): windows starting in that same
+    # millisecond just after its end must not see it
+    ds["b1"].insert(Event(timestamp=T0 + timedelta(seconds=90), duration=timedelta(seconds=2, microseconds=500), data={"app": "Sub", "title": "sub-ms end", "url": "http://s/"}))
     # events sharing one timestamp (ties): consecutive reads must agree on their order, too
-    ds["b1"].insert([Event(timestamp=T0 + timedelta(seconds=30), duration=timedelta(seconds=1 + k), data={"app": "Tie", "title": f"tie {k}", "url": "http://t/"}) for k in range(3)])
+    ds["b1"].insert([Event(timestamp=T0 + timedelta(seconds=33), duration=timedelta(0), data={"app": "Tie", "title": f"tie {k}", "url": "http://t/"}) for k in range(3)])
     ds["b2"].insert(Event(timestamp=T0 + timedelta(seconds=25), duration=timedelta(seconds=2), data={"status": "tie"}))
 
 
 def full_dump(ds):
-    return json.dumps(S.dump_all(ds), sort_keys=True, default=str)
+    """the whole store: every bucket row and every event row as the implementation holds them (raw
+    tables / lists -- cheaper than reading through the API after every query, and it also sees rows
+    the API would not show)"""
+    return json.dumps([S.raw_buckets(ds), S.raw_rows(ds)], sort_keys=True, default=str)
 
 
 def _unit(args):
@@ -178,7 +187,8 @@ def _unit(args):
             after = full_dump(ds)
             if after != base:
                 case = {"backend": backend, "text": text, "window": [a.isoformat(), b.isoformat()]}
-                changed = [k for k in json.loads(base) if json.loads(base)[k] != json.loads(after).get(k)]
+                b0, a0 = json.loads(base), json.loads(after)
+                changed = sorted({str(r[0]) for r in b0[1] + a0[1] if r not in a0[1] or r not in b0[1]} | {str(r[0]) for r in b0[0] + a0[0] if r not in a0[0] or r not in b0[0]})
                 u.violation(f"{backend}:store-changed-by-query:{'failing' if outcome != 'ok' else 'successful'}", f"{backend}: query {text!r} ({outcome}) window {a.isoformat()}..{b.isoformat()} changed bucket(s) {changed}", case, size=len(text))
                 S.close_all()
                 ds = S.fresh(backend, ctx.wdir())
